@@ -124,7 +124,7 @@ def processBlock (h : Hist) (b : Block) (outcome : Outcome) : Hist :=
   match parseEvent b.ev with
   | none => { h with diff := h.diff <|> some s!"event={evNo} kind=parse topic=? :: cannot parse event {b.ev}" }
   | some iev =>
-    let h := { h with steps := h.steps.push ⟨iev, b.ds, outcome, b.sessions, b.gauge⟩ }
+    let h := { h with steps := h.steps.push ⟨iev, b.ds, outcome, b.sessions, b.gauge, b.extra⟩ }
     if h.diff.isSome then h else
     let topic := evTopic iev
     if !b.bad.isEmpty then
